@@ -65,6 +65,10 @@ prop('C16', prefix=['c16'],
             'columns 1..=30 (offsets of either sign), same or other target sheet, reference on the cut sheet or another; ranges with absolute corners',
      outside='the moved-formula printer for operators, functions, arrays and separators (known to drop parentheses), paste orchestration in clipboard.rs, '
              'conditional-format ranges and defined names under cut, values, the parser that builds the nodes')
+prop('C17', prefix=['c17'],
+     bounds='three sheets; `=Sheet2!A1+Sheet3!$B$2+Ghost!C3+D4+Ghost!A1:B2` on Sheet1 and `=A1*Sheet1!B5` on Sheet2, typed through the real parser; rename of '
+            'any of the three sheets to one of New / My Sheet / a&b / TRUE; move of any sheet to any index',
+     outside='computed values (the rename re-evaluates; values are not compared), defined names, duplicate_sheet, formulas with function calls, other names')
 prop('C18', prefix=['c18'],
      bounds='one cell at a symbolic position holding one of: the numbers 1.5 / 123 / -0.25 / 1234567.5, TRUE, FALSE, the text abc, the quote-prefixed texts '
             '123 / TRUE / #N/A / 1,5, an empty styled cell; default, bold or percent-formatted style; en and de locale (hand-built), en language',
